@@ -13,6 +13,16 @@ func init() {
 	register("C04", "model_checking", checkC04)
 }
 
+// pollutions: package-level declarations of the user that collide with the local names wire invents.
+var pollutions = []string{
+	"",
+	"func cleanup() {}",
+	"var cleanup2 = 0",
+	"var err error",
+	"var err2 = 0",
+	"var err error\n\nfunc cleanup() {}\n\nvar cleanup2, cleanup3 = 1, 2",
+}
+
 type specCase struct {
 	id   string
 	spec *GraphSpec
@@ -29,8 +39,15 @@ func faultSpecs(thorough bool, prefix string) ([]specCase, explore.Stats) {
 	st := explore.Run(-1, func(x *explore.Ctx) {
 		n := 1 + x.Choose("n", maxN)
 		x.Choose("dag", 1<<uint(dagEdgeBits(n)))
+		allFull := true
 		for i := 0; i < n; i++ {
-			x.Choose(fmt.Sprintf("shape%d", i), 4)
+			if x.Choose(fmt.Sprintf("shape%d", i), 4) != 3 {
+				allFull = false
+			}
+		}
+		// identifiers of the user's package that collide with the names wire invents
+		if n <= 2 || allFull {
+			x.Choose("pollute", len(pollutions))
 		}
 		// result kind and injector shape: full product for small graphs only
 		small := n <= 2 || (thorough && n <= 3)
@@ -50,6 +67,7 @@ func faultSpecs(thorough bool, prefix string) ([]specCase, explore.Stats) {
 		// default result kind: pointer (rkind 0); others: leaf, int, iface, slice
 		g.Nodes[n-1].TKind = []int{TPtr, TLeaf, TInt, TIface, TSlice}[ch["rkind"]]
 		g.InjMore = ch["more"] == 1
+		g.ExtraDecl = pollutions[ch["pollute"]]
 		out = append(out, specCase{prefix + x.ID(), g})
 	})
 	return out, st
@@ -195,7 +213,7 @@ func sampleCase(c *h.Check, cases []*h.Case, results []*h.Result) {
 func checkC03(c *h.Check) {
 	specs, st := faultSpecs(c.Tier == "thorough", "C03/dag/")
 	cases, results := runSpecs(c, specs, map[string]bool{"error-path": true})
-	stdCoverage(c, cases, results, "all DAGs on <=3 nodes (thorough 4) x {plain,err,cleanup,cleanup+err}^N x result kind x injector shape; per program every single failure point and all call histories of length 3 over {ok, fail@k}. Distinct = distinct rendered source; non-trivial = all (every program differs in graph or provider shape).")
+	stdCoverage(c, cases, results, "all DAGs on <=3 nodes (thorough 4) x {plain,err,cleanup,cleanup+err}^N x result kind x injector shape x package-level identifiers colliding with wire's local names (cleanup, cleanup2, err, err2); per program every single failure point and all call histories of length 3 over {ok, fail@k}. Distinct = distinct rendered source; non-trivial = all (every program differs in graph or provider shape).")
 	c.Coverage["explorer"] = map[string]interface{}{"executions": st.Executions, "mode": "full product", "max_depth": st.MaxDepth}
 	sampleCase(c, cases, results)
 	c.Assumptions = append(c.Assumptions, "data independence: identities stand for all argument values", "failure = the provider returns a non-nil error; panics are outside the statement")
